@@ -239,6 +239,14 @@ func genC04(env *core.Env, emit func(core.Case)) {
 				p2.Enc = &e2
 				run("paddingNonZero", posClass(off, pl), []string{"illegal"}, &p2, key, true, nil)
 			}
+			// several non-zero padding bytes whose sum, xor or count hides them from an arithmetic test
+			for _, pad := range [][]byte{{0x80, 0x80}, {0xff, 0x01}, {0x40, 0x40, 0x40, 0x40}, bytes.Repeat([]byte{1}, 256), {0x55, 0x55}, {0, 0xaa, 0, 0xaa, 0}, bytes.Repeat([]byte{0xff}, 32)} {
+				p2 := *plan
+				e2 := *plan.Enc
+				e2.Trail = pad
+				p2.Enc = &e2
+				run("paddingNonZero", "several", []string{"illegal"}, &p2, key, true, nil)
+			}
 		}
 		// R8..R13 malformed ech_outer_extensions
 		eoe := func(rule string, classes []string, f func(refs []uint16, outerTypes []uint16) gen.Ext) {
